@@ -520,6 +520,17 @@ class Engine:
         return self.bind(self.eval_seq([node.left, node.right], st), k)
 
     def binop(self, s, op, a, b):
+        for x, which in ((a, 0), (b, 1)):
+            if isinstance(x, SOpt):
+                out = []
+                for s2, isn in self.split(s, x.isnone):
+                    if isn:
+                        out.extend(self.raise_(s2, "TypeError", "unsupported operand type(s): NoneType"))
+                    else:
+                        out.extend(self.binop(s2, op, x.val if which == 0 else a, x.val if which == 1 else b))
+                return out
+        if (a is None or b is None) and not isinstance(op, (ast.BitOr,)):
+            return self.raise_(s, "TypeError", "unsupported operand type(s): NoneType")
         if isinstance(op, ast.Mult) and ((ops.is_strlike(a) and isinstance(b, (SInt, SBool)))
                                          or (ops.is_strlike(b) and isinstance(a, (SInt, SBool)))):
             sv, kv = (a, b) if ops.is_strlike(a) else (b, a)
